@@ -29,7 +29,9 @@ type Expect struct {
 	HasFail bool `json:"hasfail,omitempty"` // some element may fail
 	// C08
 	Drop   bool   `json:"drop,omitempty"`
-	Need   int    `json:"need,omitempty"`  // index of the last source element the consumer needs
+	Need   int    `json:"need,omitempty"` // index of the last source element the consumer needs
+	Dec    int    `json:"dec,omitempty"`  // index of the decisive source element (without any read-ahead)
+	HasDec bool   `json:"hasdec,omitempty"`
 	Need2  int    `json:"need2,omitempty"` // same for the lazy second operand of cross/merge/+ (probe stage 15); -1 = none at all
 	Has2   bool   `json:"has2,omitempty"`
 	Merge  bool   `json:"merge,omitempty"`  // the pipeline contains merge: its channel producers keep iterating after an early stop (known)
@@ -471,6 +473,9 @@ func execC05(c *Case, sc *Script, o *Obs) {
 		if !got.Done {
 			return
 		}
+		if c.X.Fault == "boundary" {
+			return // any value or error is fine: the oracle is "no crash, no hang"
+		}
 		if c.X.Try {
 			switch {
 			case !got.Ok:
@@ -583,6 +588,9 @@ func execC08(c *Case, sc *Script, o *Obs) {
 		got := clientOutcome(r)
 		if got.Done && !got.Ok && x.Term != "single" && x.FailAt > 0 && int64(x.FailAt-1) > bound && par && !x.Fair {
 			o.add(name, unboundedSig, fmt.Sprintf("element %d fails far behind the decisive element %d (bound %d) and its error surfaces: workers ran ahead", x.FailAt-1, x.Need, bound))
+		} else if got.Done && !got.Ok && x.HasDec && !par && x.FailAt > 0 && x.FailAt-1 > x.Dec {
+			// sequential mode: not even the read-ahead element may contribute an error
+			o.add(name, "C08:late-error-surfaced:sequential:"+x.Term, fmt.Sprintf("element %d fails; the decisive element is %d, nothing behind it may surface: %s", x.FailAt-1, x.Dec, trunc(got.Err, 200)))
 		} else if got.Done && !got.Ok && x.Term != "single" && x.FailAt > 0 && int64(x.FailAt-1) > bound {
 			o.add(name, "C08:late-error-surfaced:"+mode+":"+x.Term, fmt.Sprintf("element %d fails, decisive element %d, bound %d: %s", x.FailAt-1, x.Need, bound, trunc(got.Err, 200)))
 		}
